@@ -131,7 +131,19 @@ def datagen_of(spec):
         return lambda p, h: len(h.all_groups())
     assert spec[0] == 'k'
     k = int(spec[1:])
+    if k % 2:
+        # a METHOD of an object nobody else keeps (made inline, as in `datagen=Summary(cfg).make`): the phenomenon is what
+        # keeps it alive, with either value of `retain`
+        return _Gen(k).make
     return lambda p, h: k
+
+
+class _Gen:
+    def __init__(self, k):
+        self.k = k
+
+    def make(self, p, h):
+        return self.k
 
 
 def pred_of(spec):
@@ -252,7 +264,9 @@ class Rig(BoboReceiverSubscriber, BoboDeciderSubscriber, BoboProducerSubscriber,
                 an, mode = ph['act'].split(':')
                 act = Action(an, mode, self.exec_log)
             obj = BoboPhenomenon(name=ph['name'], patterns=[pattern_of(p) for p in ph['patterns']],
-                                 action=act, datagen=datagen_of(ph['dg']))
+                                 action=act, datagen=datagen_of(ph['dg']), retain=len(phens_all) % 2 == 1)
+            self.given_dg = getattr(self, 'given_dg', {})
+            self.given_dg[ph['name']] = datagen_of(ph['dg'])      # (an equal one of the harness's own: what the data should be)
             self.phen_objs[ph['name']] = obj
             phens_all.append(obj)
             if ph['where'] in ('P', 'B'):
@@ -451,8 +465,9 @@ def final_oracle(rig: Rig, ordered_exec=True):
         for r, e in zip(completed, cx):
             ph = rig.phen_objs.get(r.phenomenon_name)
             want = None
-            if ph is not None and ph.datagen is not None:
-                want = ph.datagen(ph, r.history)
+            dg = getattr(rig, 'given_dg', {}).get(r.phenomenon_name, ph.datagen if ph is not None else None)
+            if ph is not None and dg is not None:
+                want = dg(ph, r.history)
             if not (isinstance(e, BoboEventComplex) and e.phenomenon_name == r.phenomenon_name
                     and e.pattern_name == r.pattern_name and e.history is r.history and e.data == want):
                 out.append(('complex-fields', f'complex event {show_event(e)} does not carry run {show_rec(r)} / datagen {want!r}'))
@@ -609,7 +624,8 @@ def gen_case(rng, cfg, build):
             ops.append(['step', rng.choice('RRDDPF')])
         else:
             ops.append(['update'])
-    return {'build': build, 'cfg': cfg, 'validator': validator, 'phens': phens, 'ops': ops, 'local_only': 1,
+    return {'build': build, 'cfg': cfg, 'validator': validator, 'phens': phens, 'ops': ops,
+            'local_only': 0 if build == 'hand' and rng.random() < 0.35 else 1,      # a forwarder that also serves peers' completions
             'opaque': int(validator == 'all' and rng.random() < 0.4)}
 
 
